@@ -1,7 +1,14 @@
 """C19 - AwkwardForth programs have deterministic, documented, step-independent semantics (tier L)."""
+import glob
 import math
 import os
+import re
+import shutil
 import struct
+import subprocess
+import sys
+import tempfile
+import time
 
 from akgen import forth as GF
 from akmodel import forth as MF
@@ -9,9 +16,9 @@ from vlib.common import Violation, HarnessError
 
 ID = "C19"
 MANIFEST = {
-    "technique": "property-based testing (Hypothesis): grammar-generated AwkwardForth programs x input bytes x machine options, run on ForthMachine32/64 through the bridge, against an independent reference interpreter and model-free metamorphic relations; sanitizer twin",
-    "level_text": "Generated-input exploration. Programs (<= ~40 tokens, whole documented vocabulary, well-formed by construction plus a token-mutated fraction) are compiled and executed on ForthMachine32/64 with generated input bytes and stack/recursion/output-buffer settings. Oracle 1: a pure-Python reference interpreter written from the documented semantics must agree on compile verdict and, at every pause point and at the end, on stack, variables, outputs, input positions, error status and ready/done flags (also across Python-side call() of defined words). Oracle 2 (model-free): same result when run twice, through C++ run() vs begin+resume, when single-stepped to the end, under a generated interleaving of step/resume segments, under other output-buffer growth settings, after decompiled() is re-compiled, and between the 32- and 64-bit machine when no intermediate exceeds 32 bits. Oracle 3: every compile-time and run-time fault is an error value/exception, never a crash (ASan/UBSan twin). Held on everything generated outside the recorded known findings.",
-    "level_note": "Trusted: akmodel.forth (the documented semantics as I read them; the repository carries no AwkwardForth documentation, so the upstream language description, the error texts and tests/test_0648*/test_0781* served as the specification), the /verif bridge and its re-statement of the Python binding. Not asserted: behaviour the documentation is silent on (listed in ASSUMPTIONS); the pybind11 binding itself; printed output of . cr .s .\"; literals beyond 32 bits; programs longer than ~40 tokens.",
+    "technique": "property-based testing (Hypothesis): grammar-generated AwkwardForth programs x input bytes x machine options, run on ForthMachine32/64 through the bridge, against an independent reference interpreter and model-free metamorphic relations; sanitizer twin; coverage-guided fuzzing (libFuzzer + ASan/UBSan) of bytes -> program + input with the metamorphic relations inside the target",
+    "level_text": "Generated-input exploration. Programs (<= ~40 tokens, whole vocabulary of the language description, well-formed by construction plus a token-mutated fraction, plus the programs of the repository's own tests as a seed corpus) are compiled and executed on ForthMachine32/64 with generated input bytes and stack/recursion/output-buffer settings. Oracle 1: a pure-Python reference interpreter written from the language description must agree on the compile verdict and, at every pause point and at the end, on stack, variables, outputs, input positions, error status and ready/done flags (also across host-side call() of defined words). Oracle 2 (model-free): same result when run twice, through C++ run() vs begin+resume, when single-stepped to the end, under a generated interleaving of step/resume segments, under other output-buffer growth settings, after decompiled() is re-compiled (and decompiling is a fixed point), and between the 32- and 64-bit machine when no intermediate exceeds 32 bits. Oracle 3: every compile-time and run-time fault is an error value/exception, never a crash (ASan/UBSan twin; thorough tier: a libFuzzer campaign whose target checks step == run/resume, growth independence, determinism and decompile/recompile on every input). Held on everything generated outside the recorded known findings.",
+    "level_note": "Trusted: akmodel.forth (the language as I read it: the repository carries no AwkwardForth documentation, so the upstream language description, the error texts of ForthMachineOf::maybe_throw and tests/test_0648*/test_0781* served as the specification), the /verif bridge and its re-statement of the Python binding. Not asserted: behaviour the description is silent on (listed in ASSUMPTIONS; such programs still go through the model-free relations and the sanitizer twin); the pybind11 binding itself (src/python/forth.cpp cannot be compiled here); printed output of . cr .s .\"; literals beyond 32 bits; programs longer than ~40 tokens; output_initial_size 0 and resize factors <= 1 (maybe_resize cannot grow such a buffer); wraparound under the sanitizer build (signed overflow is undefined in C++: those programs are run in the plain flavour only); the LayoutBuilder users of the machine.",
 }
 RULE = ("case = generated program source + input bytes + machine width/stack/recursion/output-growth options + step/resume schedule + calls; "
         "non-trivial = the program compiled and the reference run executed at least one loop iteration or word call AND at least one read or write; "
@@ -19,16 +26,24 @@ RULE = ("case = generated program source + input bytes + machine width/stack/rec
 ASSUMPTIONS = [
     "the repository contains no AwkwardForth documentation: the reference interpreter follows the upstream language description, the error messages of ForthMachineOf::maybe_throw and the usage in tests/test_0648*/test_0781*",
     "'do' runs its body while index < limit (tested before every iteration, so limit <= start runs zero times, and a negative +loop step only ends through the same test); taken from the implementation, the description only shows ascending loops",
-    "every nested block (word call, if/else branch, loop body) counts as one level against recursion_max_depth, the main program being level 1; taken from the implementation",
-    "not asserted (documentation silent): shift counts outside [0, width); rshift of a negative number (logical in standard Forth, arithmetic in C++); float->integer conversion of NaN/inf/out-of-range values; bool bytes other than 0/1; negative repeat counts and negative rewind counts; the stack (and the input position) left behind by an instruction that failed after consuming operands; literals and loop indices beyond the machine width; zigzag/n-bit values wider than the machine when read directly into an output; a 10-byte varint whose last byte carries no payload",
+    "every nested block (word call, if/else branch, loop body) counts as one level against recursion_max_depth, the main program being level 1, and a block that ends with 'pause' is left before pausing; taken from the implementation",
+    "rshift shifts a negative number arithmetically (pinned by tests/test_0648: '-5 1 rshift' gives -3)",
+    "not asserted (description silent): shift counts outside [0, width); float->integer conversion of NaN/inf/out-of-range values; bool bytes other than 0/1; negative repeat counts and negative rewind counts (an error or nothing); the stack (and the input position) left behind by an instruction that failed after consuming operands; literals beyond 32 bits (the bytecode is 32-bit) and literals beyond 64 bits (rejected or not); loop indices beyond the machine width; zigzag/n-bit values wider than the machine when read directly into an output; a 10-byte varint whose last byte carries no payload; a backslash inside a string",
     "n-> / N-> read the platform's 8-byte ssize_t/size_t on both machine widths; values pushed on the stack wrap to the machine width",
     "N-bit reads (5bit->): little-endian bit order within the byte stream, a partly used last byte is discarded at the end of each instruction, '!' reverses the bits of every byte; taken from the implementation (the word was added without documentation)",
     "output 'dup' (repeat the last item n times; 'rewind beyond' on an empty output) is modelled from the implementation and its error text",
-    "in the sanitizer flavour, programs whose arithmetic overflows the machine integer are not executed (signed overflow is undefined behaviour in C++ and UBSan aborts; recorded as a known finding): wraparound itself is checked in the plain flavour only",
+    "'+<-' forms the sum in the output's own type (narrower integer types wrap, floats round to the output's precision)",
+    "in the sanitizer flavour, programs whose arithmetic overflows the machine integer (or an int32/int64 output under '+<-'), that shift by an out-of-range count or shift a negative number left, that read a bool byte other than 0/1 or convert an out-of-range float are not executed (undefined behaviour in C++ that UBSan reports by design; counted as excluded): wraparound itself is checked in the plain flavour only",
+    "typed values are read at arbitrary byte offsets of the input by design of the language: the forth translation units are built without UBSan's alignment check (build/fuzz_forth.mk); unaligned loads are well defined on the x86-64 target",
+    "the libFuzzer target additionally switches off the signed-overflow, shift and bool checks for its instrumented copy of the forth sources (the campaign has no model to exclude such programs beforehand)",
+    "output buffers are created with initial size >= 1 and resize factor > 1 (documented defaults 1024 and 1.5)",
 ]
 PLAN = {
-    "quick": [{"flavour": "plain", "cases": 16000}, {"flavour": "san", "cases": 3200}],
-    "thorough": [{"flavour": "plain", "cases": 480000}, {"flavour": "san", "cases": 120000}],
+    "quick": [{"flavour": "plain", "cases": 16000, "flags": ["--seeds"]}, {"flavour": "san", "cases": 3200, "flags": ["--seeds"]}],
+    # the last entry is the libFuzzer campaign: each of its workers runs the seed corpus and one `fuzz` case (FUZZ_RUNS executions of
+    # fuzz/fuzz_forth.cpp with its own seed, about 10 minutes)
+    "thorough": [{"flavour": "plain", "cases": 160000, "workers": 8, "flags": ["--seeds"]}, {"flavour": "san", "cases": 32000, "workers": 4, "flags": ["--seeds"]},
+                 {"flavour": "san", "cases": 4, "workers": 4, "flags": ["--seeds", "--fuzz"]}],
 }
 WALL_CAP = {"quick": 900, "thorough": 3300}
 FORK_EACH = False
@@ -44,9 +59,49 @@ def F():
     return _F[0]
 
 
+def _seed(source, bits=32, inputs=None, stack=1024, recursion=1024, calls=(), schedule=(1, 0, 2)):
+    return {"source": source, "inputs": {k: v.hex() for k, v in (inputs or {}).items()}, "bits": bits, "stack": stack, "recursion": recursion,
+            "growth": [[1, 1.5], [1024, 1.5], [2, 1.1]], "schedule": list(schedule), "calls": [list(c) for c in calls], "mutated": False}
+
+
+_I32 = struct.pack("<6i", 1, 2, 3, -4, 5, 6)
+# seed corpus: the programs of /repo/tests/test_0648* / test_0781* (as data), run by every worker of a plan entry with "--seeds"
+_BASE_SEEDS = [_seed(src, bits) for bits in (32, 64) for src in (
+    "", "( comment )", "1 2 ( comment ) 3 4", "1 2 \\ comment \n 3 4", "1 2 3 4 dup", "1 2 3 4 drop", "1 2 3 4 swap", "1 2 3 4 over", "1 2 3 4 rot",
+    "1 2 3 4 nip", "1 2 3 4 tuck", "3 5 +", "-3 5 -", "-3 -5 *", "22 7 /", "-22 7 /", "22 -7 /", "-22 -7 /", "22 7 mod", "-22 7 mod", "22 -7 mod",
+    "-22 -7 mod", "22 7 /mod", "-22 7 /mod", "22 -7 /mod", "-22 -7 /mod", "123 0 /", "-123 0 mod", "123 0 /mod", "-2 abs", "-2 negate", "-1 1+", "0 1-",
+    "3 -5 min", "3 -5 max", "3 5 =", "3 5 <>", "3 5 >", "3 5 >=", "3 5 <", "3 5 <=", "-1 0=", "0 0=", "-1 invert", "1 -1 and", "1 0 or", "-1 1 xor",
+    "1 3 lshift", "-5 1 lshift", "-5 1 rshift", "-5 3 rshift", "true false", "-1 if 3 5 + then", "0 if 3 5 + then", "-1 if 3 5 + else 123 then",
+    "0 if 3 5 + else 123 then", "-1 if else then", "5 0 do i loop", "10 0 do i +loop", "10 0 do loop", "10 0 do 5 0 do 3 1 do i j k loop loop loop",
+    "1025 0 do i loop", "1 2 3 halt 4 5", "1 2 pause 3 4 5", ": foo 999 ; 1 2 3 pause 4 5", "variable x 10 x ! 5 x +! x @", "1 +", "1 2 3 4",
+    ": foo 3 + ; : bar foo foo ; 1 bar", ": foo dup 0 > if 1- recurse then ; 5 foo", "3 begin dup 1- dup 0= until", "0 begin dup 5 < while 1+ repeat",
+    "5 begin dup 0= if exit then 1- again", "1 2 foo", "if 1 then then", ": ; 1", "variable variable", "output x int33", "1 i 2")]
+_BASE_SEEDS += [_seed(src, bits, {"x": data}) for bits in (32, 64) for src, data in (
+    ("input x x len x pos x end", _I32), ("input x 8 x seek x pos x i-> stack 4 x skip x i-> stack", _I32), ("input x 25 x seek", _I32), ("input x -1 x skip", _I32),
+    ("input x output y int32 x i-> y x i-> y y len", _I32), ("input x output y int32 6 x #i-> y", _I32), ("input x output y float64 3 x #!i-> y x i-> stack y <- stack", _I32),
+    ("input x output y int32 7 x #i-> y", _I32), ("input x output y int64 3 0 do x i-> stack y +<- stack loop", _I32),
+    ("input x output y int32 1 y <- stack 2 y <- stack 1 y rewind 3 y <- stack 5 y rewind", _I32), ("input x output y uint8 10 y <- stack 3 y dup y len", _I32),
+    ("input x begin x end 0= while x b-> stack repeat", _I32), ("input x x varint-> stack x zigzag-> stack x varint-> stack", bytes([0x96, 0x01, 0x03, 0xff, 0xff, 0x03])),
+    ("input x 2 x #3bit-> stack x !5bit-> stack", bytes([0xb5, 0x4c])), ("input x x d-> stack x !d-> stack", struct.pack("<d", 3.5) + struct.pack(">d", -2.25)),
+    ("input x x q-> stack x Q-> stack", bytes(range(1, 17))), ("input x x varint-> stack", b"\xff" * 10))]
+_BASE_SEEDS += [_seed(": foo 999 ; 1 2 3 pause 4 5", calls=[[0, 0], [0, 0]]), _seed(": foo 999 ; : bar halt ; 1 2 3 pause 4 5", calls=[[0, 1]]),
+                _seed(": foo 1 2 3 4 ; pause 5", stack=3, calls=[[0, 0]]), _seed(": foo foo ; pause", recursion=5, calls=[[0, 0]])]
+SEED_CASES = list(_BASE_SEEDS)
+FUZZ_RUNS = {"quick": 20000, "thorough": 250000}       # executions per fuzz worker (about 450/s under ASan+UBSan)
+
+
 def setup(flavour, tier):
+    global SEED_CASES
     FLAVOUR[0] = flavour
     F()
+    SEED_CASES = list(_BASE_SEEDS)
+    if "--fuzz" in sys.argv and flavour == "san":
+        # inside a worker (python -m vlib.worker <mod> <flavour> <tier> <seed> ...) the derived per-worker seed, so that the fuzz
+        # workers of one run explore differently
+        seed = int(os.environ.get("VERIF_SEED", "1"))
+        if len(sys.argv) > 4 and sys.argv[4].isdigit():
+            seed = int(sys.argv[4]) % (2 ** 31 - 1) + 1
+        SEED_CASES.append({"kind": "fuzz", "seed": seed, "runs": int(os.environ.get("VERIF_FUZZ_RUNS", FUZZ_RUNS.get(tier, 20000))), "max_len": 160})
 
 
 def strategy(tier):
@@ -54,6 +109,8 @@ def strategy(tier):
 
 
 def case_label(case):
+    if case.get("kind"):
+        return case["kind"]
     return "forth|" + _features(case)
 
 
@@ -185,6 +242,10 @@ class Findings(object):
 
 # ------------------------------------------------------------------------------------------------------------ the case
 def run_case(case):
+    if case.get("kind") == "fuzz":
+        return run_fuzz(case)
+    if case.get("kind") == "fuzzinput":
+        return run_fuzzinput(case)
     src = case["source"]
     inputs = {k: bytes.fromhex(v) for k, v in case["inputs"].items()}
     tags = ["bits:%d" % case["bits"], "mutated" if case["mutated"] else "grammar"]
@@ -369,6 +430,113 @@ def _same(found, bucket, ref, got, extra=None):
                 obs.update(extra)
             found.add("%s|%s" % (bucket, comp), "state differs at segment %d of %d in component %s" % (k, len(a), comp), exp, obs, "model-free relation")
             return
+
+
+# ------------------------------------------------------------------------------------------------------------ libFuzzer campaign
+def fuzz_binary():
+    from vlib.common import build_dir
+    return os.path.join(build_dir("san"), "fuzz_forth")
+
+
+def _ensure_fuzz_binary():
+    from vlib.runner import build
+    if not build(["san"], "fuzz_forth") or not os.path.exists(fuzz_binary()):
+        raise HarnessError("fuzz target %s could not be built (make FLAVOUR=san fuzz_forth)" % fuzz_binary())
+
+
+def _fuzz_env():
+    from vlib.runner import worker_env
+    env = worker_env("san")          # LD_PRELOAD of the shared ASan runtime the target is linked against
+    env["ASAN_OPTIONS"] = "detect_leaks=0:abort_on_error=0:detect_odr_violation=0:symbolize=1:allocator_may_return_null=1:quarantine_size_mb=8"
+    return env
+
+
+def _fuzz_seed_inputs():
+    """a few byte strings that decode (fuzz/fuzz_forth.cpp) to programs with loops, definitions, reads and writes"""
+    out = []
+    for k in range(24):
+        body = bytes((37 * k + 11 * j * (k + 1)) % 251 for j in range(8 + 3 * k))
+        out.append(bytes([k, 16 * k % 256]) + body + b"\xff" + bytes((5 * j + k) % 256 for j in range(24)))
+    return out
+
+
+def _run_with_heartbeat(cmd, env, errpath, limit):
+    """run a long child process; while it runs, touch this worker's slot file so that the runner's per-case watchdog (which looks at
+    the slot's age) does not take a fuzzing campaign of several minutes for a hang. libFuzzer's own -timeout guards single inputs;
+    `limit` seconds bounds the whole campaign. -> (stderr text, return code)"""
+    slot = (sys.argv[6] + ".slot") if len(sys.argv) > 6 and sys.argv[0].endswith("worker.py") else None
+    with open(errpath, "wb") as ef:
+        proc = subprocess.Popen(cmd, stdout=subprocess.DEVNULL, stderr=ef, env=env)
+        t0 = time.time()
+        while True:
+            try:
+                rc = proc.wait(timeout=10)
+                break
+            except subprocess.TimeoutExpired:
+                if slot is not None and os.path.exists(slot):
+                    os.utime(slot, None)
+                if time.time() - t0 > limit:
+                    proc.kill()
+                    proc.wait()
+                    raise HarnessError("fuzz_forth did not finish its %s within %d s" % (cmd[1], limit))
+    with open(errpath, "rb") as f:
+        return f.read().decode("utf-8", "replace"), rc
+
+
+def _fuzz_failure(err):
+    m = re.search(r"(ORACLE: [^\n]*|SUMMARY: [^\n]*|runtime error: [^\n]*|ERROR: libFuzzer: [^\n]*)", err)
+    return m.group(1) if m else None
+
+
+def run_fuzz(case):
+    exe = fuzz_binary()
+    _ensure_fuzz_binary()
+    from vlib.common import build_dir
+    work = tempfile.mkdtemp(prefix="fuzz_forth_", dir=build_dir("san"))
+    corpus = os.path.join(work, "corpus")
+    os.makedirs(corpus)
+    for i, s in enumerate(_fuzz_seed_inputs()):
+        with open(os.path.join(corpus, "seed%02d" % i), "wb") as f:
+            f.write(s)
+    cmd = [exe, "-runs=%d" % case["runs"], "-seed=%d" % case["seed"], "-max_len=%d" % case["max_len"], "-len_control=0", "-artifact_prefix=" + work + "/",
+           "-print_final_stats=1", "-timeout=20", "-rss_limit_mb=4096", "-close_fd_mask=1", corpus]
+    try:
+        err, rc = _run_with_heartbeat(cmd, _fuzz_env(), os.path.join(work, "stderr.txt"), limit=3000)
+        stats = dict(re.findall(r"stat::(\w+):\s+(\d+)", err))
+        counts = {"fuzz_executions": int(stats.get("number_of_executed_units", 0)), "fuzz_new_units": int(stats.get("new_units_added", 0))}
+        arts = sorted(glob.glob(os.path.join(work, "crash-*")) + glob.glob(os.path.join(work, "timeout-*")) + glob.glob(os.path.join(work, "oom-*")))
+        if rc != 0 or arts:
+            data = open(arts[0], "rb").read() if arts else b""
+            what = _fuzz_failure(err) or "exit status %d" % rc
+            sub = {"kind": "fuzzinput", "hex": data.hex()}
+            vio = {"bucket": "fuzz:" + what[:60], "message": "fuzz_forth: " + what, "expected": None, "observed": err[-2500:], "clause": None}
+            try:
+                from vlib.runner import write_replay
+                rp = write_replay(ID, "san", sub, vio, case["seed"])
+            except Exception as e:   # noqa: B902
+                rp = "replay not written: %r" % (e,)
+            raise Violation("fuzz:" + what[:60], "libFuzzer target fuzz_forth failed (%s); input saved as %s" % (what, rp),
+                            expected={"hex": data.hex()}, observed=err[-2500:])
+    finally:
+        shutil.rmtree(work, ignore_errors=True)
+    return {"tags": ["part:fuzz"], "counts": counts, "nontrivial": False, "sample_class": "fuzz"}
+
+
+def run_fuzzinput(case):
+    """one stored libFuzzer input through the target (replay of a fuzz finding)"""
+    exe = fuzz_binary()
+    _ensure_fuzz_binary()
+    fd, path = tempfile.mkstemp(suffix=".fuzz")
+    with os.fdopen(fd, "wb") as f:
+        f.write(bytes.fromhex(case["hex"]))
+    try:
+        p = subprocess.run([exe, "-close_fd_mask=1", path], capture_output=True, env=_fuzz_env(), timeout=120)
+    finally:
+        os.unlink(path)
+    if p.returncode != 0:
+        err = p.stderr.decode("utf-8", "replace")
+        raise Violation("fuzz:" + (_fuzz_failure(err) or "exit %d" % p.returncode)[:60], "fuzz_forth fails on this input", observed=err[-2500:])
+    return {"tags": ["part:fuzzinput"], "nontrivial": False}
 
 
 # ------------------------------------------------------------------------------------------------------------ known findings
